@@ -7,6 +7,8 @@ observation of the source.
 
 Product A  every sparsity mask of every shape x every layout prefix x compress {on, off}
            x writer x every loader, plain ids, no metadata, default header.
+           (thorough: A2 = the same masks x layouts x compress with a second value rotation,
+           path writer only.)
 Product B  (fixed masks: dense 2x3, a 3x3 with an empty row and an empty column, 1x1)
            B-ids   observation id style x sample id style
            B-md    observation metadata kind x sample metadata kind
@@ -78,9 +80,9 @@ def spine(tier, seed):
                     out.append({'prod': 'A', 'shape': list(shape), 'mask': mask, 'rot': 0,
                                 'pool': 'int', 'layout': lay})
                     continue
-                for r in rots:
-                    out.append({'prod': 'A', 'shape': list(shape), 'mask': mask, 'rot': r,
-                                'pool': 'hard', 'layout': lay})
+                for k, r in enumerate(rots):
+                    out.append({'prod': 'A' if k == 0 else 'A2', 'shape': list(shape), 'mask': mask,
+                                'rot': r, 'pool': 'hard', 'layout': lay})
     lays = b_layouts(tier)
     ns, nk = len(D.ID_STYLES), len(D.MD_KINDS)
     for shape, mask in FIXED:
@@ -109,19 +111,26 @@ def spine(tier, seed):
 
 
 def writers_for(spec, tier):
-    """quick: the big one-writer products B-ids/B-md/B-x use the path writer only"""
-    if tier == 'quick' and spec['prod'] in ('B-ids', 'B-md', 'B-x'):
+    """Which writers a spec is multiplied with (stated in run.extra['bound']).
+    The writer decides how the HDF5 handle comes into being, not what is put into it, so the
+    big id / metadata products are not multiplied with every writer."""
+    p = spec['prod']
+    if p in ('A2', 'B-full'):
         return ['to_hdf5']
-    if spec['prod'] == 'B-full':
-        return ['to_hdf5']
+    if p in ('B-ids', 'B-md', 'B-x'):
+        return ['to_hdf5'] if tier == 'quick' else ['to_hdf5', 'save_table']
     return WRITERS
+
+
+def compress_for(spec):
+    return [True] if spec['prod'] == 'B-full' else [True, False]
 
 
 def cases(tier, seed):
     out = []
     for spec in spine(tier, seed):
         for w in writers_for(spec, tier):
-            for comp in (True, False):
+            for comp in compress_for(spec):
                 out.append(dict(spec, writer=w, compress=comp))
     return out
 
@@ -414,28 +423,31 @@ def compare(r, src, gen, exp_id, ld, bad, acc):
 
 
 def bound(tier):
+    q = tier == 'quick'
     return {
         'A': {'shapes': D.shapes(tier), 'masks': 'all 2^(N*M) per shape', 'layouts': D.LAYOUTS,
-              'value_rotations': 1 if tier == 'quick' else 2, 'compress': [True, False],
+              'value_rotation': 'seed % 16', 'compress': [True, False],
               'writers': WRITERS, 'loaders': LOADERS,
               'note': "layout 'subsample_full' applies only to integer tables with equal column sums "
                       "(others are counted as skipped:layout-not-applicable)"},
+        'A2': None if q else {'same as A with value rotation': '(seed + 5) % 16',
+                              'writers': ['to_hdf5'], 'compress': [True, False], 'loaders': LOADERS},
         'B': {'fixed_masks': FIXED, 'layouts': b_layouts(tier), 'compress': [True, False],
               'loaders': LOADERS,
               'B-ids': 'obs id style x samp id style (%d x %d), header 1' % ((len(D.ID_STYLES),) * 2),
               'B-md': 'obs md kind x samp md kind (%d x %d), header 1' % ((len(D.MD_KINDS),) * 2),
               'B-x': 'id style x md kind (%d x %d), sample axis rotated by seed%s'
-                     % (len(D.ID_STYLES), len(D.MD_KINDS),
-                        "; layout 'csr' only" if tier == 'quick' else ''),
+                     % (len(D.ID_STYLES), len(D.MD_KINDS), "; layout 'csr' only" if q else ''),
               'B-hdr': 'header variant x group-metadata variant (%d x %d)' % (len(D.HEADERS), len(GMD)),
               'B-type': 'types %r on one 2x2 table, layout csr' % (D.TYPES,),
-              'B-full': None if tier == 'quick' else
-              'obs style x samp style x obs md x samp md (%d), layout csr, writer to_hdf5'
+              'B-full': None if q else
+              'obs style x samp style x obs md x samp md (%d), layout csr, writer to_hdf5, compress on'
               % (len(D.ID_STYLES) ** 2 * len(D.MD_KINDS) ** 2),
-              'writers': "B-ids/B-md/B-x: ['to_hdf5'] in quick, all 3 in thorough; B-hdr/B-type: all 3; "
-                         "B-full: ['to_hdf5']"},
-        'not_enumerated': 'the single product of all B factors at once (ids x md x header x layout) is '
-                          'split into the listed exhaustive sub-products sharing the fixed masks',
+              'writers': "B-ids/B-md/B-x: %s; B-hdr/B-type: all 3; B-full: ['to_hdf5']"
+                         % (['to_hdf5'] if q else ['to_hdf5', 'save_table'])},
+        'not_enumerated': 'the single product of all B factors at once (ids x md x header x layout x '
+                          'writer) is split into the listed exhaustive sub-products sharing the fixed '
+                          'masks',
     }
 
 
@@ -458,7 +470,7 @@ def run(run):
     need += ['layoutname:' + x for x in D.LAYOUTS]
     need += ['header:%d' % i for i in range(len(D.HEADERS))] + ['gmd:%d' % i for i in range(len(GMD))]
     if not run.quick:
-        need.append('prod:B-full')
+        need += ['prod:B-full', 'prod:A2']
     vacuity(run, need)
     run.assumptions += [
         'creation_date is passed explicitly to every writer (the writer otherwise calls datetime.now())',
